@@ -334,6 +334,9 @@ impl crate::traits::Transaction for SqliteStore {
             .await
             .expect("if semaphore is closed then the whole struct is gone as well");
 
+        #[cfg(p2panda_p2panda_verif)]
+        verif::point("begin_acquired").await;
+
         // Access the transaction object which we've placed behind a Mutex. This lock follows a
         // different logic and only makes sure that mutable access to it is exclusive _within_ a
         // process "holding" the transaction permit.
@@ -357,6 +360,9 @@ impl crate::traits::Transaction for SqliteStore {
             panic!("can't have no transaction without dropping permit first")
         };
 
+        #[cfg(p2panda_p2panda_verif)]
+        verif::point("rollback_taken").await;
+
         let result = tx.rollback().await.map_err(SqliteError::Sqlite);
 
         // Always drop the permit, both on successful rollback and error. This will allow other
@@ -374,6 +380,9 @@ impl crate::traits::Transaction for SqliteStore {
         let Some(tx) = self.tx.lock().await.take() else {
             panic!("can't have no transaction without dropping permit first")
         };
+
+        #[cfg(p2panda_p2panda_verif)]
+        verif::point("commit_taken").await;
 
         let result = tx.commit().await.map_err(SqliteError::Sqlite);
 
@@ -423,13 +432,70 @@ impl Drop for TransactionPermit {
             let permit = self.permit.clone();
             let tx = self.tx.clone();
 
+            #[cfg(p2panda_p2panda_verif)]
+            verif::note("rollback_task_spawn");
+
             tokio::spawn(async move {
+                #[cfg(p2panda_p2panda_verif)]
+                verif::point("rollback_task_start").await;
+
                 if let Some(tx) = tx.lock().await.take() {
                     let _ = tx.rollback().await;
                 }
 
+                #[cfg(p2panda_p2panda_verif)]
+                verif::point("rollback_task_before_release").await;
+
                 drop(permit); // Semaphore released only after rollback completes.
+
+                #[cfg(p2panda_p2panda_verif)]
+                verif::note("rollback_task_done");
             });
+        }
+    }
+}
+
+/// Verification hooks: schedule points for the external verification harness. Compiled only with
+/// `--cfg p2panda_p2panda_verif`; without an installed callback every point is a no-op.
+#[cfg(p2panda_p2panda_verif)]
+#[doc(hidden)]
+pub mod verif {
+    use std::future::Future;
+    use std::pin::Pin;
+    use std::sync::{Arc, Mutex};
+
+    /// Callback invoked at every schedule point. With `wait == true` the returned future is
+    /// awaited by the instrumented code before it continues; with `wait == false` (a plain
+    /// notification from synchronous code) the returned value is discarded.
+    pub type PointFn = Arc<
+        dyn Fn(&'static str, bool) -> Option<Pin<Box<dyn Future<Output = ()> + Send>>>
+            + Send
+            + Sync,
+    >;
+
+    static POINT: Mutex<Option<PointFn>> = Mutex::new(None);
+
+    /// Installs (or removes) the process-wide schedule point callback.
+    pub fn install(f: Option<PointFn>) {
+        *POINT.lock().unwrap() = f;
+    }
+
+    fn current() -> Option<PointFn> {
+        POINT.lock().unwrap().clone()
+    }
+
+    /// Awaitable schedule point.
+    pub async fn point(name: &'static str) {
+        let fut = current().and_then(|f| f(name, true));
+        if let Some(fut) = fut {
+            fut.await;
+        }
+    }
+
+    /// Notification from synchronous code (never blocks).
+    pub fn note(name: &'static str) {
+        if let Some(f) = current() {
+            let _ = f(name, false);
         }
     }
 }
